@@ -42,7 +42,7 @@ RULE = (
 ASSUMPTIONS = [
     "the reference decoder is a shallow copy of the shared disassembler taken before its first call; it shares the spec tree",
     "the pristine oracle relies on fork() giving the post-import process state",
-    "decode mode of armv7 is selected through env.internals['isetstate'] (the cpu module's own selector)",
+    "decode modes are selected through the cpu modules' own selectors: armv7 env.internals[isetstate / itstate / ibigend], armv8 ibigend, x86 / x64 env.internals['mode'] (32/16, 64/32/16); a mode label sets all of them",
     "sampling, not proof: histories are seeded samples; the pair layer is exhaustive only over its stated pool",
 ]
 REAL_VS_STUB = {
@@ -243,6 +243,7 @@ class Gen(object):
         self.d = cpu.disassemble
         self.sets = [I.specs_of_set(self.d, k) for k in range(len(self.d.specs))]
         self.modes = [m for m, _ in I.modes_of(isa_name, cpu)]
+        self.mode_sets = [I.mode_set(isa_name, m) for m in self.modes]
         self.endian = I.insn_endian(cpu)
         self.faults = faults
         self.is_x86 = isa_name.endswith(("cpu_x86", "cpu_x64"))
@@ -257,7 +258,7 @@ class Gen(object):
         """(word, mask, nbits) for every pair of specs of one leaf of the decoder
         tree that accept a common word: the inputs for which the *order* of the
         linear search inside a leaf (or any memo of its result) decides the outcome"""
-        k = mode_idx if mode_idx < len(self.d.specs) else 0
+        k = self.mode_sets[mode_idx]
         if k in self._overlaps:
             return self._overlaps[k]
         out = []
@@ -304,7 +305,7 @@ class Gen(object):
         return W.to_bytes(n // 8, "little") + bytes(rng.randrange(256) for _ in range(rng.choice([0, 0, 1, 4, self.d.maxlen])))
 
     def valid(self, rng, mode_idx):
-        S = self.sets[mode_idx if mode_idx < len(self.sets) else 0]
+        S = self.sets[self.mode_sets[mode_idx]]
         s = rng.choice(S)
         tail = rng.choice([0, 0, 1, 2, 4, 8, self.d.maxlen])
         b = self.I.encode(s, rng, endian=self.endian if s.size != 0 else 1, tail=tail)
@@ -319,14 +320,14 @@ class Gen(object):
             if self.is_x64 and rng.random() < 0.4:
                 out += bytes([rng.choice(self.I.REX)])
         else:
-            P = self.pfx_specs[mode_idx if mode_idx < len(self.pfx_specs) else 0]
+            P = self.pfx_specs[self.mode_sets[mode_idx]]
             if P and rng.random() < 0.5:
                 for _ in range(rng.choice([1, 1, 2])):
                     out += self.I.encode(rng.choice(P), rng, endian=1)
         return out
 
     def op(self, rng):
-        mi = rng.randrange(len(self.modes))
+        mi = rng.randrange(len(self.modes)) if rng.random() < 0.5 else 0
         mode = self.modes[mi]
         kind = weighted(
             rng,
@@ -363,7 +364,7 @@ class Gen(object):
             if self.is_x86:
                 one = [bytes([c]) for c in self.I.X86_PREFIXES]
             else:
-                P = self.pfx_specs[mi if mi < len(self.pfx_specs) else 0]
+                P = self.pfx_specs[self.mode_sets[mi]]
                 if P:
                     one = [self.I.encode(p, rng, endian=1) for p in P]
             if one:
